@@ -1153,8 +1153,52 @@ class CompilerPassGatherCode(CompilerPass):
                 for line in func.code:
                     self.code.append(line)
 
+        import os
+
+        _verif = os.environ.get("PYTRAPIC_VERIF") == "1"
+        if _verif:
+            # verification hook (guarded, add-only): remember the virtual register
+            # names of every instruction before they are replaced by r0..r15
+            _pre = [
+                (
+                    l.output.code_expr if isinstance(l.output, IC10Register) else None,
+                    [
+                        (
+                            i.value.code_expr
+                            if isinstance(i, IC10Operand) and i.is_register
+                            else None
+                        )
+                        for i in l.inputs
+                    ],
+                )
+                for l in self.code
+            ]
         self.used_registers = assign_registers(self.data, self.code)
         self.get_code()
+        if _verif:
+            recs = []
+            for l, (o, ins) in zip(self.code, _pre):
+                recs.append(
+                    {
+                        "text": l.to_string(0).strip(),
+                        "out": o if isinstance(o, str) else None,
+                        "ins": [x if isinstance(x, str) else None for x in ins],
+                        "lineno": (
+                            getattr(l.node, "lineno", None)
+                            if l.node is not None
+                            else None
+                        ),
+                        "scope": (
+                            l.node.scope().name
+                            if l.node is not None and hasattr(l.node, "scope")
+                            else None
+                        ),
+                    }
+                )
+            self.data.result["_verif"] = {
+                "instructions": recs,
+                "allocated": list(self.used_registers),
+            }
 
     def remove_labels(
         self, code, relative_numbers: bool = False, keep_labels: set | None = None
